@@ -175,6 +175,31 @@ def reader_stop(ctx, f):
     return every, detail, (stops[0] if stops else body.where)
 
 
+def known_sets(ctx, f):
+    """F-KNOWN (added after seeded change C13): whatever is done with *unknown* values, every value the specification
+    defines must be known to the decoders: flag bits 0x1, 0x2, 0x4; message types 1..4; header field codes 1..9.
+    (A renumbered constant turns a spec-defined value into an "unknown" one that is then rejected.)"""
+    want = {
+        "zbus::message::header::Flags": ({1, 2, 4}, "flag bits NO_REPLY_EXPECTED, NO_AUTO_START, ALLOW_INTERACTIVE_AUTHORIZATION"),
+        "zbus::message::header::Type": ({1, 2, 3, 4}, "message types METHOD_CALL, METHOD_RETURN, ERROR, SIGNAL"),
+        FC: (set(range(1, 10)), "header field codes PATH .. UNIX_FDS"),
+    }
+    for adt_id, (vals, what) in want.items():
+        a = f.adts.get(adt_id)
+        ctx.need([a] if a else [], "enum " + adt_id)
+        have = set()
+        for v in a["variants"]:
+            try:
+                have.add(int(v["discr"]))
+            except ValueError:
+                pass
+        missing = sorted(vals - have)
+        ctx.ob("F-KNOWN", "spec-values-defined:" + adt_id.rsplit("::", 1)[-1], not missing,
+               "%s are all defined (%s)" % (what, sorted(have)) if not missing else
+               "%s: value(s) %s defined by the specification are not values of %s (%s): valid messages carrying them are rejected"
+               % (what, missing, adt_id, sorted(have)), "%s:%s" % (a.get("file"), a.get("line")))
+
+
 def run(ctx):
     ctx.explanation = (
         "R-FALL over MIR of zbus (K1): for the header-field code, the flags member and the message-type member the rule resolves "
@@ -184,6 +209,7 @@ def run(ctx):
     ctx.not_decided = ("what happens to a tolerated message afterwards (whether consumers skip an unknown type); the visit_map path of the derived "
                        "decoders; enumflags2/serde internals beyond the stated assumption.")
     f = ctx.facts("K1")
+    known_sets(ctx, f)
 
     # ------------------------------------------------------------------ F-CODE
     vis = ctx.one(f.find(name="visit_seq", adt=VISITOR), "FieldsVisitor::visit_seq")
